@@ -43,8 +43,8 @@ Local Open Scope nat_scope.
 Inductive level := Error | Warning | Message.
 
 (** the reference rules validator.cpp attaches, plus two pseudo rules that are not issues:
-    [V_NULL_DEREF]: the real code would call a member function through a null pointer here (validateReset:
-    owningComponent(reset->variable())->name() for a parent-less variable; the MathML sibling look-ups);
+    [V_NULL_DEREF]: the real code would call a member function through a null pointer here (the MathML sibling
+    look-ups — MathProofs.val_null_safe shows it never happens —, a unit reduction that does not return);
     [V_OUT_OF_FUEL]: the real code would recurse without bound here (never produced: ValidProofs.units_fuel_enough). *)
 Inductive vrule :=
 | V_XML_ID_ATTRIBUTE | V_MODEL_NAME_VALUE
@@ -507,37 +507,12 @@ Definition conv_math_rule (r : MathDefs.rule) : vrule :=
 (** the names for which model->hasUnits(name) or isStandardUnitName(name) holds *)
 Definition units_names (m : model) : list string := map u_name (m_units m) ++ map fst standard_units_list.
 
-(** validateMathMLElementsChildrenAndSiblings with the switch [q] (= fx_math_qual): MathDefs.val_struct is the tree as
-    it was; with [q] a degree / logbase / bvar whose own tests all pass has its MathML children validated as well
-    (ValidProofs.val_struct_q_false: with q = false this IS MathDefs.val_struct).  C01's own switch for its proposed
-    arity rules of min / max / rem (MathDefs.arity_fix_committed) is followed as it stands in MathDefs. *)
-Definition qual_class (n : string) : bool :=
-  match vclass_of n with VDegree | VLogbase | VBvar => true | _ => false end.
-Fixpoint val_struct_q (q : bool) (pk : list xml) (idx : nat) (x : xml) {struct x} : list MathDefs.rule :=
-  match x with
-  | Elem ns n attrs kids =>
-      if negb (String.eqb ns MATHML_NS) then [] else
-      let sub := (fix go (ks : list xml) (i : nat) {struct ks} : list MathDefs.rule :=
-                    match ks with
-                    | [] => []
-                    | k :: r => if is_mathml k then val_struct_q q (mkids kids) i k ++ go r (S i) else go r i
-                    end) kids 0 in
-      let r := val_node arity_fix_committed pk idx n attrs kids sub in
-      if q && qual_class n then match r with [] => sub | _ => r end else r
-  | _ => []
-  end.
-Fixpoint val_struct_kids_q (q : bool) (mk : list xml) (ks : list xml) (i : nat) : list MathDefs.rule :=
-  match ks with
-  | [] => []
-  | k :: r => if is_mathml k then val_struct_q q mk i k ++ val_struct_kids_q q mk r (S i) else val_struct_kids_q q mk r i
-  end.
-(** MathDefs.val_math_env with the switch *)
+(** validateMath on one document: C01's transcription MathDefs.val_math_env_gen2, whose first switch [q] (= fx_math_qual)
+    is the repair fixes/C04-mathml-qualifier-children.diff (validateMathMLElementsChildrenAndSiblings descends into degree /
+    logbase / bvar once the qualifier's own tests pass); C01's own switch for its proposed arity rules of min / max / rem
+    (MathDefs.arity_fix_committed) is followed as it stands in MathDefs. *)
 Definition val_math_env_q (q : bool) (vars units : list string) (root : xml) : list MathDefs.rule :=
-  if negb (is_mathml_el "math" root) then [R_MATH_ELEMENT]
-  else
-    flat_map val_supported (kids_of root)
-    ++ val_cicn vars units root
-    ++ val_struct_kids_q q (mkids (kids_of root)) (kids_of root) 0.
+  val_math_env_gen2 q arity_fix_committed vars units root.
 
 (** validateMath: variableNames = the component's variable names without repetitions (membership is all that is
     read); a root that is not <math> raises MATH_ELEMENT and RETURNS: the roots after it are not looked at *)
@@ -573,14 +548,16 @@ Fixpoint validate_variables (m : model) (c : cinfo) (prev : list string) (vs : l
   | v :: r => validate_variable m c prev v ++ validate_variables m c (prev ++ [v_name v]) r
   end.
 
-(** validateReset.  [L]: where the variables of owningModel(component) live. *)
+(** validateReset.  [L]: where the variables of owningModel(component) live.  A (test) variable without an owning
+    component counts as "in a different component" (commit f391ef6 of /repo, found by C09: the code used to call
+    owningComponent(var)->name() through the null pointer). *)
 Definition reset_var_check (L : list vloc) (c : cinfo) (ov : option nat) (r : vrule) : list vrule * list vrule :=
   (* (raised at once, raised at the end) *)
   match ov with
   | None => ([], [])                                     (* "does not reference a ..." is raised in the final block *)
   | Some t =>
       match lookup_var L t with
-      | None => ([V_NULL_DEREF], [])                     (* owningComponent(var)->name() on nullptr *)
+      | None => ([], [r])
       | Some l => ([], if negb (String.eqb (l_cname l) (c_name c)) then [r] else [])
       end
   end.
@@ -977,7 +954,10 @@ Definition ueq_c08 (W : world) (n1 n2 : string) : option bool :=
 (** the tree as it is now: the early exit of publicAndOrPrivateInterfaceTypeRequired is gone (commit c0e1a6b, found by C19) *)
 Definition current_early : bool := false.
 
-(** the state of the tree the correspondence run compares with: every repair of C04 applied *)
-Definition current_fixes : fixes := all_fixed.
+(** the state of the tree the correspondence run compares with: the repairs of C04 that are in /repo (5d61678 reset
+    orders, a5130f0 qualifier children, 1c340b4 name pairs).  fx_isrc_once stays false: counting the id of a shared
+    import source once is pinned by the upstream test ParserTransform.annotatedCellMl10Model (known finding
+    C04-shared-import-source-id). *)
+Definition current_fixes : fixes := mkFx true true false true.
 
 Definition validate_now (W : world) : list (level * vrule) := validate current_fixes ueq_c08 current_early W.
